@@ -12,6 +12,7 @@ Supported subset
   types       int -> Z, str -> string (s.find(t), s[a:b] with Python's wrap-and-clamp, s[i] with IndexError = None, `t in s`, len, +,
               f-strings: PyLib.py_find / py_slice / py_index / py_contains), bool, tuple of fixed size (t[0], t[1] with constant index), list (elements of any
               type, `[]`, `.append(x)`, `+`, `len`), dict[str,int] -> PyLib.dict (`k in d`, `d[k]`, `d[k] = v`, `d[k] += v`),
+              list[str] from s.split("<one char>") with l[a:b], l[i] (IndexError = None), sep.join(l); read-only dict[str,str] -> PyLib.sdict,
               `self.<attr>` of a declared type is a variable `self_<attr>`; attributes listed under `state` are returned
               next to the result (the function mutates them)
   expressions int/str/bool constants, names, + - * on int, `%` on int (ZeroDivisionError = None), + on str/list, unary - / not,
@@ -39,7 +40,7 @@ import ast, hashlib, os, re, sys
 VERIF = os.path.dirname(os.path.dirname(os.path.abspath(__file__)))
 REPO = os.environ.get("VERIF_REPO", "/repo")
 GEN = os.path.join(VERIF, "coq", "gen")
-Z, STR, BOOL, DICT = ("Z",), ("string",), ("bool",), ("dict",)
+Z, STR, BOOL, DICT, SDICT = ("Z",), ("string",), ("bool",), ("dict",), ("sdict",)
 def LIST(t): return ["list", t]
 def TUP(*ts): return ("tup", tuple(ts))
 
@@ -52,6 +53,8 @@ TARGETS = [
          fuel="(S (List.length self__node_names))"),
     dict(name="get_unique_label", file="pyrates/backend/parser.py", cls=None, func="get_unique_label",
          types={"label": STR, "labels": DICT}),
+    dict(name="relabel_var", file="pyrates/frontend/template/circuit.py", cls="CircuitTemplate", func="_relabel_var",
+         types={"var": STR, "var_map": SDICT}),
     dict(name="replace", file="pyrates/backend/parser.py", cls=None, func="replace",
          types={"eq": STR, "term": STR, "replacement": STR, "rhs_only": BOOL, "lhs_only": BOOL}, fuel="(S (S (String.length eq)))"),
 ]
@@ -195,10 +198,19 @@ class Tr:
                 k, tk = self.ex(e.slice)
                 if tk != Z: raise Unsupported("string index of type " + ty(tk))
                 return self.hoisted("s[i]", f"(py_index {a} {k})", STR)
-            if ta == DICT:
+            if ta[0] == "list" and isinstance(e.slice, ast.Slice) and e.slice.step is None:     # l[a:b] is total
+                lo, hi = [("None", Z) if x is None else self.ex(x) for x in (e.slice.lower, e.slice.upper)]
+                if lo[1] != Z or hi[1] != Z: raise Unsupported("slice bound that is not an int")
+                some = lambda x: x if x == "None" else f"(Some {x})"
+                return f"(py_lslice {a} {some(lo[0])} {some(hi[0])})", ta
+            if ta[0] == "list" and ta[1] is not None and not isinstance(e.slice, ast.Slice):      # l[i]: IndexError -> None
+                k, tk = self.ex(e.slice)
+                if tk != Z: raise Unsupported("list index of type " + ty(tk))
+                return self.hoisted("l[i]", f"(py_lindex {a} {k})", ta[1])
+            if ta in (DICT, SDICT):
                 k, tk = self.ex(e.slice)
                 if tk != STR: raise Unsupported("dict key of type " + ty(tk))
-                return self.hoisted("d[k]", f"(py_dget {a} {k})", Z)
+                return self.hoisted("d[k]", f"({'py_dget' if ta == DICT else 'py_sget'} {a} {k})", Z if ta == DICT else STR)
         if isinstance(e, ast.Call) and isinstance(e.func, ast.Name) and e.func.id == "len" and len(e.args) == 1 and not e.keywords:
             a, ta = self.ex(e.args[0])
             if ta[0] == "list": return f"(Z.of_nat (List.length {a}))", Z
@@ -206,11 +218,18 @@ class Tr:
         if isinstance(e, ast.Call) and isinstance(e.func, ast.Attribute) and e.func.attr == "find" and len(e.args) == 1 and not e.keywords:
             (a, ta), (b, tb) = self.ex(e.func.value), self.ex(e.args[0])
             if ta == STR and tb == STR: return f"(py_find {a} {b})", Z
+        if isinstance(e, ast.Call) and isinstance(e.func, ast.Attribute) and e.func.attr == "split" and len(e.args) == 1 and not e.keywords \
+                and isinstance(e.args[0], ast.Constant) and isinstance(e.args[0].value, str) and len(e.args[0].value) == 1 and e.args[0].value not in '"\\':
+            a, ta = self.ex(e.func.value)
+            if ta == STR: return f'(py_split_char {a} "{e.args[0].value}"%char)', LIST(STR)
+        if isinstance(e, ast.Call) and isinstance(e.func, ast.Attribute) and e.func.attr == "join" and len(e.args) == 1 and not e.keywords:
+            (a, ta), (b, tb) = self.ex(e.func.value), self.ex(e.args[0])
+            if ta == STR and tb == LIST(STR): return f"(py_join {a} {b})", STR
         raise Unsupported("expression " + ast.dump(e)[:120])
     def cmp(self, op, x, y):
         (a, ta), (b, tb) = x, y
-        if isinstance(op, (ast.In, ast.NotIn)) and ta == STR and (tb == DICT or tb == LIST(STR) or tb == STR):
-            t = f"(py_din {b} {a})" if tb == DICT else f"(py_contains {a} {b})" if tb == STR else f"(py_in_str {a} {b})"
+        if isinstance(op, (ast.In, ast.NotIn)) and ta == STR and (tb in (DICT, SDICT) or tb == LIST(STR) or tb == STR):
+            t = f"(py_din {b} {a})" if tb == DICT else f"(py_sin {b} {a})" if tb == SDICT else f"(py_contains {a} {b})" if tb == STR else f"(py_in_str {a} {b})"
             return t if isinstance(op, ast.In) else f"(negb {t})"
         sym = {ast.Eq: "=?", ast.LtE: "<=?", ast.Lt: "<?", ast.GtE: ">=?", ast.Gt: ">?"}.get(type(op))
         if ta == Z and tb == Z and sym: return f"({a} {sym} {b})%Z"
@@ -328,7 +347,7 @@ def translate(cfg):
     if len(fs) != 1: raise Unsupported(f"{len(fs)} definitions of {cfg['func']}")
     fn = fs[0]
     src = ast.get_source_segment(text, fn)
-    if fn.decorator_list or fn.args.vararg or fn.args.kwarg or fn.args.kwonlyargs or not all(isinstance(d, ast.Constant) for d in fn.args.defaults):
+    if [d for d in fn.decorator_list if not (isinstance(d, ast.Name) and d.id == "staticmethod")] or fn.args.vararg or fn.args.kwarg or fn.args.kwonlyargs or not all(isinstance(d, ast.Constant) for d in fn.args.defaults):
         raise Unsupported("decorators / non-constant defaults / *args")
     params = [a.arg for a in fn.args.args if a.arg != "self"] + [v for v in cfg["types"] if v.startswith("self_")]
     if set(params) != set(cfg["types"]): raise Unsupported(f"signature changed: {params}")
@@ -349,7 +368,7 @@ def translate(cfg):
     tr.env = dict(cfg["types"])
     out = ["(* generated by harness/py2v.py from %s (%s%s), sha1 of the translated text %s - do not edit *)"
            % (cfg["file"], (cfg["cls"] + ".") if cfg["cls"] else "", cfg["func"], hashlib.sha1(src.encode()).hexdigest()[:12]),
-           "From Coq Require Import ZArith List Bool String.\nFrom PV Require Import PyLib.\nImport ListNotations.\nOpen Scope Z_scope.",
+           "From Coq Require Import ZArith List Bool String Ascii.\nFrom PV Require Import PyLib.\nImport ListNotations.\nOpen Scope Z_scope.",
            *consts, *tr.aux, f"Definition {cfg['name']}{tr.binders(params)} :=\n{main}."]
     return "\n\n".join(out) + "\n"
 
